@@ -1201,3 +1201,25 @@ M("c14r4", "fire", ["C14"], "release-id parser: 'ga' shortcut taken for any id w
         # TODO: what if short contains '-'?'''))
 M("c14r5", "fire", ["C14"], "create_release_id: type and version swapped in the identifier",
   (CO, '''        result = "%s-%s-%s" % (short, version, type)''', '''        result = "%s-%s-%s" % (short, type, version)'''))
+
+M("n76", "neutral", [], "Images: identity collisions re-checked by a validator before anything is written",
+  (IM, '''    def _add_1_1(self, data, variant, arch, image):''', '''    def _validate_unique_identities(self):
+        seen = {}
+        for variant in self.images:
+            for arch in self.images[variant]:
+                for image in self.images[variant][arch]:
+                    other = seen.setdefault(identify_image(image), image)
+                    if other.checksums != image.checksums:
+                        raise ValueError("Image {0} shares all UNIQUE_IMAGE_ATTRIBUTES with image {1}!".format(image, other))
+
+    def _add_1_1(self, data, variant, arch, image):'''),
+  (IM, '''    def serialize(self, parser):
+        data = parser
+        self.header.serialize(data)
+        data["payload"] = {}
+        data["payload"]["images"] = {}''', '''    def serialize(self, parser):
+        self.validate()
+        data = parser
+        self.header.serialize(data)
+        data["payload"] = {}
+        data["payload"]["images"] = {}'''))
